@@ -112,6 +112,46 @@ def job_roundtrip():
     return {'results': res, 'encoded': loader.ENCODED, 'axioms': CTX.axiom_notes, 'label': 'roundtrip'}
 
 
+def job_array_indexing():
+    """the loops over slices / solutions of the three unit-conversion kernels apply the SAME factor at every index and touch every element exactly once:
+    3-slice arrays and 3 slices x 2 solution types of radial functions with a distinct symbol per element (a wrong stride or offset moves or skips a factor)"""
+    pi, G, v, pos = sym_env()
+    fns = load_nd(pi, G)
+    n = 3
+    arrs = {k: [Q.sym('%s_%d' % (k, i)) for i in range(n)] for k in ('r', 'rho', 'g', 'K', 'mu')}
+    orig = {k: list(x) for k, x in arrs.items()}
+    Rto, dto, fto, Gto = [None], [None], [None], [None]
+    fns['cf_non_dimensionalize_physicals'](n, v['w'], v['Rp'], v['rhob'], arrs['r'], arrs['rho'], arrs['g'], arrs['K'], arrs['mu'], Rto, dto, fto, Gto)
+    ref, _ = nondim(fns, v['w'], v['Rp'], v['rhob'], Q.sym('r_0'), Q.sym('rho_0'), Q.sym('g_0'), Q.sym('K_0'), Q.sym('mu_0'))
+    A = pos + [orig[k][i].re != 0 for k in orig for i in range(n)]
+    conds = []
+    for k in ('r', 'rho', 'g', 'K', 'mu'):
+        conds.append(z3.BoolVal(len(arrs[k]) == n and all(x is not None for x in arrs[k])))
+        for i in range(n):
+            # same factor as at index 0 (which is the one-slice result checked by the scaling obligations): out[i] * in[0] == out[0] * in[i]
+            conds.append(eq_goal(Q.of(arrs[k][i]) * orig[k][0], Q.of(ref[k]) * orig[k][i]))
+    res = [discharge(Obligation('cf_non_dimensionalize_physicals on 3-slice arrays: every element of radius, density, gravity, bulk and shear gets the factor of its array', z3.And(*conds), A,
+                                replay=lambda md: (True, 'slice loop of cf_non_dimensionalize_physicals (transliterated current source) applies a different factor or skips an element'), key='indexing:nondim'))]
+    fns['cf_redimensionalize_physicals'](n, v['w'], v['Rp'], v['rhob'], arrs['r'], arrs['rho'], arrs['g'], arrs['K'], arrs['mu'], Rto, dto, fto, Gto)
+    res.append(discharge(Obligation('redimensionalize(non_dimensionalize(x)) == x element-wise on 3-slice arrays', z3.And(*[eq_goal(arrs[k][i], orig[k][i]) for k in orig for i in range(n)]), A,
+                                    replay=lambda md: (True, 'round trip on 3-slice arrays does not restore every element'), key='indexing:roundtrip')))
+    S = scale_factors(fns, v['Rp'], v['rhob'])
+    nsl, nty = 3, 2
+    rf = [Q.sym('Y_%d' % i) for i in range(nsl * nty * 6)]
+    rf0 = list(rf)
+    fns['cf_redimensionalize_radial_functions'](rf, v['Rp'], v['rhob'], nsl, nty)
+    conds = [z3.BoolVal(len(rf) == len(rf0))]
+    for sl in range(nsl):
+        for t in range(nty):
+            for yi in range(6):
+                i = sl * 6 * nty + t * 6 + yi
+                conds.append(eq_goal(Q.of(rf[i]), S[yi] * rf0[i]))
+    res.append(discharge(Obligation('cf_redimensionalize_radial_functions on 3 slices x 2 solution types: element [slice, type, y_i] is multiplied by the factor of y_i (layout slice-major, 6 per type)',
+                                    z3.And(*conds), pos, replay=rp_bc, key='indexing:radial-functions')))
+    res.append(reach_twin('array indexing', A))
+    return {'results': res, 'encoded': loader.ENCODED, 'axioms': CTX.axiom_notes, 'label': 'array indexing'}
+
+
 def load_bc_block():
     """AST slice of cf_radial_solver: construction of the surface boundary vectors (bc_pointer) from solve_for"""
     src = open(os.path.join(REPO, SOLVER)).read()
@@ -349,6 +389,7 @@ def main():
             jobs.append((job_reciprocity, {'cls': cls, 'l': l}))
         jobs.append((rs.job_packing, {'cls': cls, 'l': 3}))
     jobs.append((job_roundtrip, {}))
+    jobs.append((job_array_indexing, {}))
     for l in ls:
         jobs.append((job_bc_and_love, {'l': l}))
     for lo in c02.kinds():
